@@ -11,26 +11,26 @@ EXTENDS Shape
 Coord(size, x) == LET z == x - 1 IN <<(z \div size[2]) % size[1], z % size[2], z \div (size[2] * size[1])>>
 IdxC(size, c) == Idx(size, c[1], c[2], c[3])
 Bases(size, d) == {c \in (0..(size[1] - 1)) \X (0..(size[2] - 1)) \X (0..(size[3] - 1)) : c[d] = 0}
-RowOf(s, d, c0) == LET t == D3(s) IN [i \in 1..t.size[d] |-> s.P[IdxC(t.size, [c0 EXCEPT ![d] = i - 1])]]
+RowOf(s, d, c0) == LET t == D3(s) IN TLCEval([i \in 1..t.size[d] |-> s.P[IdxC(t.size, [c0 EXCEPT ![d] = i - 1])]])
 \* new flat net after applying F to every row along direction d (rows get length newLen)
 MapRows(s, d, F(_), newLen) ==
   LET t == D3(s)
-      tab == [c0 \in Bases(t.size, d) |-> F(RowOf(s, d, c0))]
+      tab == TLCEval([c0 \in Bases(t.size, d) |-> F(RowOf(s, d, c0))])
       nsize == [t.size EXCEPT ![d] = newLen]
-  IN [x \in 1..(nsize[1] * nsize[2] * nsize[3]) |-> LET c == Coord(nsize, x) IN tab[[c EXCEPT ![d] = 0]][c[d] + 1]]
+  IN TLCEval([x \in 1..(nsize[1] * nsize[2] * nsize[3]) |-> LET c == Coord(nsize, x) IN tab[[c EXCEPT ![d] = 0]][c[d] + 1]])
 WithDir(s, d, U, newLen, P) ==
-  [s EXCEPT !.kv = [s.kv EXCEPT ![d] = U], !.size = [s.size EXCEPT ![d] = newLen], !.P = P]
+  TLCEval([s EXCEPT !.kv = [s.kv EXCEPT ![d] = U], !.size = [s.size EXCEPT ![d] = newLen], !.P = P])
 
 \* ---- knot insertion (Boehm) -----------------------------------------------------
 InsKV1(p, U, n, u) == LET k == SpanDef(p, U, n, u) IN
-  [i \in 1..(Len(U) + 1) |-> IF i <= k + 1 THEN U[i] ELSE IF i = k + 2 THEN u ELSE U[i - 1]]
+  TLCEval([i \in 1..(Len(U) + 1) |-> IF i <= k + 1 THEN U[i] ELSE IF i = k + 2 THEN u ELSE U[i - 1]])
 InsRow1(p, U, row, u) ==
   LET n == Len(row) k == SpanDef(p, U, n, u) IN
-  [i \in 1..(n + 1) |->
+  TLCEval([i \in 1..(n + 1) |->
      LET j == i - 1 IN
      IF j <= k - p THEN row[j + 1]
      ELSE IF j >= k + 1 THEN row[j]
-     ELSE LET al == RQuot(RSub(u, At(U, j)), RSub(At(U, j + p), At(U, j))) IN VLerp(al, row[j + 1], row[j])]
+     ELSE LET al == RQuot(RSub(u, At(U, j)), RSub(At(U, j + p), At(U, j))) IN VLerp(al, row[j + 1], row[j])])
 RECURSIVE InsKV(_, _, _, _, _)
 InsKV(p, U, n, u, r) == IF r = 0 THEN U ELSE InsKV(p, InsKV1(p, U, n, u), n + 1, u, r - 1)
 RECURSIVE InsRow(_, _, _, _, _)
@@ -85,7 +85,7 @@ RmOuter(pp, UU, Pw, u, num, t, first, last, force) ==
 RECURSIVE RmIJ(_, _, _, _)
 RmIJ(k, t, i, j) == IF k >= t THEN <<i, j>> ELSE IF k % 2 = 1 THEN RmIJ(k + 1, t, i + 1, j) ELSE RmIJ(k + 1, t, i, j - 1)
 RemoveKV(p, U, n, u, t) == LET r == SpanDef(p, U, n, u) IN
-  [x \in 1..(Len(U) - t) |-> IF x - 1 <= r - t THEN U[x] ELSE U[x + t]]
+  TLCEval([x \in 1..(Len(U) - t) |-> IF x - 1 <= r - t THEN U[x] ELSE U[x + t]])
 \* returns [t |-> knots actually removed, row |-> new row]
 RemoveRow(pp, UU, Pw, u, num, force) ==
   LET n == Len(Pw) - 1
@@ -96,7 +96,7 @@ RemoveRow(pp, UU, Pw, u, num, force) ==
   IN IF t = 0 THEN [t |-> 0, row |-> Pw] ELSE
      LET ij == RmIJ(1, t, fout, fout)
          i == ij[1]  j == ij[2]
-     IN [t |-> t, row |-> [x \in 1..(n + 1 - t) |-> IF x - 1 < j THEN res.Pw[x] ELSE res.Pw[x + (i + 1 - j)]]]
+     IN [t |-> t, row |-> TLCEval([x \in 1..(n + 1 - t) |-> IF x - 1 < j THEN res.Pw[x] ELSE res.Pw[x + (i + 1 - j)]])]
 CanRemove(s, d, u, r) == r >= 1 /\ r <= Mult(u, s.kv[d]) /\ RLt(DomLo(s.deg[d], s.kv[d]), u) /\ RLt(u, DomHi(s.deg[d], s.kv[d]))
 \* candidate result: every row reduced by the forced algorithm
 RemoveDirForced(s, d, u, r) ==
@@ -113,7 +113,7 @@ RowsRemovable(s, d, u, r) ==
 RECURSIVE Bisect(_, _)
 Bisect(knots, dens) ==   \* knots: increasing sequence
   IF dens = 0 THEN knots ELSE
-  Bisect([i \in 1..(2 * Len(knots) - 1) |-> IF i % 2 = 1 THEN knots[(i + 1) \div 2] ELSE RMid(knots[i \div 2], knots[i \div 2 + 1])], dens - 1)
+  Bisect(TLCEval([i \in 1..(2 * Len(knots) - 1) |-> IF i % 2 = 1 THEN knots[(i + 1) \div 2] ELSE RMid(knots[i \div 2], knots[i \div 2 + 1])]), dens - 1)
 \* knot list of helpers.knot_refinement: distinct knots of kv[p:-p], bisected `density` times
 RefineKnots(p, U, dens) == Bisect(SortedRats({U[i] : i \in (p + 1)..(Len(U) - p)}), dens)
 RECURSIVE RefineFrom(_, _, _, _)
@@ -134,8 +134,8 @@ SplitDir(s, d, u) ==
       f == InsertDir(s, d, u, p - Mult(u, s.kv[d]))      \* u now has multiplicity p
       U == f.kv[d]
       nlo == Cardinality({i \in 1..Len(U) : RLt(U[i], u)})           \* knots below u
-      kv1 == [i \in 1..(nlo + p + 1) |-> IF i <= nlo THEN U[i] ELSE u]
-      kv2 == [i \in 1..(Len(U) - nlo - p + p + 1) |-> IF i <= p + 1 THEN u ELSE U[nlo + p + (i - (p + 1))]]
+      kv1 == TLCEval([i \in 1..(nlo + p + 1) |-> IF i <= nlo THEN U[i] ELSE u])
+      kv2 == TLCEval([i \in 1..(Len(U) - nlo - p + p + 1) |-> IF i <= p + 1 THEN u ELSE U[nlo + p + (i - (p + 1))]])
       n1 == nlo                                                      \* Len(kv1) - p - 1
       n2 == f.size[d] - n1 + 1
       P1 == MapRows(f, d, LAMBDA row : [i \in 1..n1 |-> row[i]], n1)
